@@ -12,6 +12,8 @@ type GenOpts struct {
 	Kinds        []TKind
 	WrapPct      int  // chance that argument expressions are wrapped in rt.A
 	ShadowPct    int  // chance that Params come from variables named like generated identifiers
+	ParMatrix    bool // also generate the systematic signature matrix of Parallel programs (GenParMatrix)
+	BarePct      int  // chance that every argument is a bare identifier, poisoned once a user function runs
 	NoInvoke     bool // every task has at least one output; leftovers go to Results
 	GenericPct   int
 	NoConcOption bool
@@ -25,6 +27,7 @@ func DefaultOpts() GenOpts {
 		Spellings:  []int{SpLit, SpLit, SpLit, SpTop, SpMethod, SpVar, SpGeneric},
 		Kinds:      []TKind{KNamedInt, KNamedInt, KStruct, KPtr, KSlice, KMap, KGeneric, KNamedSlice, KU64, KI64, KStr, KArr},
 		WrapPct:    40,
+		BarePct:    12,
 		GenericPct: 15,
 		MaxColl:    3,
 		EndPct:     40,
@@ -214,6 +217,9 @@ func GenFlow(r *Rand, name string, o GenOpts) *Program {
 	p.Generic = r.Intn(100) < o.GenericPct
 	p.InMethod = !p.Generic && r.Chance(1, 6)
 	p.Shadow = len(f.Params) > 0 && !f.SplitParams && r.Intn(100) < o.ShadowPct
+	if r.Intn(100) < o.BarePct {
+		p.Bare, p.Wrap = true, false
+	}
 	g.finish()
 	return p
 }
@@ -272,6 +278,9 @@ func (g *flowGen) finish() {
 	}
 	if p.Wrap {
 		feat["wrap"] = true
+	}
+	if p.Bare {
+		feat["bare"] = true
 	}
 	if p.Shadow && p.Flow != nil {
 		for i := range p.Flow.Params {
@@ -385,6 +394,76 @@ func GenPar(r *Rand, name string, o GenOpts) *Program {
 	p.Wrap = r.Intn(100) < o.WrapPct
 	p.Generic = r.Intn(100) < o.GenericPct
 	p.InMethod = !p.Generic && r.Chance(1, 6)
+	if r.Intn(100) < o.BarePct {
+		p.Bare, p.Wrap = true, false
+	}
+	g.finish()
+	return p
+}
+
+// ParMatrixSize is the number of programs GenParMatrix enumerates.
+const ParMatrixSize = 4 + 4 + 40 + 20
+
+// GenParMatrix enumerates, deterministically, one Parallel per signature
+// variant of every kind of user function: Task and Tasks functions (ctx x
+// error), Slice functions (index/no index x ctx x error) and Map functions
+// (ctx x error), each without an End hook and with an End hook in its four
+// signatures (ctx x error). Every program also holds one plain bystander task.
+func GenParMatrix(i int, name string, o GenOpts) *Program {
+	r := NewRand(uint64(i), 0x9A7)
+	g := &flowGen{r: r, o: o, p: &Program{Name: name}, basic: map[TKind]bool{}}
+	p := g.p
+	p.Types = []TKind{KNamedInt}
+	pr := &Par{}
+	p.Par = pr
+	bit := func(v, k int) bool { return v>>k&1 == 1 }
+	elemKinds := []TKind{KNamedInt, KStruct, KPtr, KU64, KStr, KI64}
+	mkColl := func(isMap, hasIndex bool, v, end int) PItem {
+		c := &Coll{IsMap: isMap, Slot: 0, HasIndex: hasIndex || isMap, ElemKind: elemKinds[i%len(elemKinds)], Named: i%5 == 0, IntKey: i%3 == 0}
+		role, erole, kind := "slice", "send", "slice"
+		if isMap {
+			role, erole, kind = "map", "mend", "map"
+		}
+		c.Fn = g.newFn(role)
+		c.Fn.Ctx, c.Fn.Err = bit(v, 0), bit(v, 1)
+		if end > 0 {
+			e := g.newFn(erole)
+			e.Ctx, e.Err = bit(end-1, 0), bit(end-1, 1)
+			c.End = &e
+		}
+		return PItem{Kind: kind, Coll: c}
+	}
+	switch {
+	case i < 4:
+		f := g.newFn("ptask")
+		f.Ctx, f.Err = bit(i, 0), bit(i, 1)
+		pr.Items = append(pr.Items, PItem{Kind: "task", Fns: []Fn{f}})
+	case i < 8:
+		f1, f2 := g.newFn("ptask"), g.newFn("ptask")
+		f1.Ctx, f1.Err = bit(i, 0), bit(i, 1)
+		f2.Ctx, f2.Err = bit(i, 1), bit(i, 0)
+		pr.Items = append(pr.Items, PItem{Kind: "tasks", Fns: []Fn{f1, f2}})
+	case i < 48:
+		k := i - 8 // 2 x 4 x 5
+		pr.Items = append(pr.Items, mkColl(false, k%2 == 0, (k/2)%4, k/8))
+	default:
+		k := i - 48 // 4 x 5
+		pr.Items = append(pr.Items, mkColl(true, true, k%4, k/4))
+	}
+	by := g.newFn("ptask")
+	by.Err = i%2 == 0
+	pr.Items = append(pr.Items, PItem{Kind: "task", Fns: []Fn{by}})
+	hasEnd := pr.Items[0].Coll != nil && pr.Items[0].Coll.End != nil
+	switch o.ForceCOE {
+	case 1:
+		pr.COE = !hasEnd
+	case 2:
+		pr.COE = false
+	default:
+		pr.COE = !hasEnd && i%2 == 1
+	}
+	pr.Concurrency = i%3 != 0
+	pr.OptOrder = r.Perm(3 + len(pr.Items))
 	g.finish()
 	return p
 }
